@@ -73,6 +73,17 @@ def g1_torsion_point(rng):
     while True:
         T = g1_mul(R381, g1_random_curve_point(rng))
         if T is not None: return T
+def g1_decompress(b):
+    """48-byte compressed G1 -> affine (x, y) (no subgroup check), None for the identity"""
+    if b[0] & 0x40: return None
+    x = int.from_bytes(bytes([b[0] & 0x1f]) + bytes(b[1:48]), "big")
+    y = pow((pow(x, 3, P381) + 4) % P381, (P381 + 1) // 4, P381)
+    if (y > P381 - y) != bool(b[0] & 0x20): y = P381 - y
+    return (x, y)
+def g1_compress(P_):
+    if P_ is None: return bytes([0xC0]) + bytes(47)
+    bb = bytearray(P_[0].to_bytes(48, "big")); bb[0] |= 0x80 | (0x20 if P_[1] > P381 - P_[1] else 0)
+    return bytes(bb)
 MONT = (1 << 384) % P381
 def g1_raw(P_):
     """97-byte raw commit-key encoding: Montgomery limbs of x and y, little-endian, infinity flag"""
